@@ -373,6 +373,18 @@ def open_reader(prop, paths, **kw):
         return _open_relative_then_chdir(prop, paths, kw)
     kw.pop("allow_chdir", None)
     arg = list(paths)
+    if variant == 0 and sum(os.path.getsize(p) for p in paths) % 2 == 0:
+        # archive layouts: the observation is reached through symbolic links with other names, kept in
+        # another directory (the names of the links say nothing about the order or the targets)
+        d = os.path.join(os.path.dirname(paths[0]), "links with spaces")
+        os.makedirs(d, exist_ok=True)
+        arg = []
+        for i, p in enumerate(paths):
+            ln = os.path.join(d, f"beam.{len(paths) - i:02d}.v1.fil")
+            if os.path.lexists(ln):
+                os.unlink(ln)
+            os.symlink(p, ln)
+            arg.append(ln)
     if variant == 1:
         arg = [Path(p) for p in paths]
     elif variant == 2 and len(paths) == 1:
